@@ -192,7 +192,7 @@ End Safe.
 
 (** [Transport::new]: any start position below the bound, any requested region *)
 Lemma transport_new_safe : forall start lr reverse N B,
-  0 <= start -> start < B -> req_loop B lr ->
+  0 <= start -> start < B -> N <= B -> req_loop B lr ->
   wf_transport B (transport_new start lr reverse N) /\
   t_loop (transport_new start lr reverse N) = filter_region lr /\
   (start < N ->
@@ -201,13 +201,20 @@ Lemma transport_new_safe : forall start lr reverse N B,
   (reverse = true -> N <= start ->
      t_pos (transport_new start lr reverse N) = 0 /\ t_playing (transport_new start lr reverse N) = false).
 Proof.
-  intros start lr reverse N B H0 H1 Hlr. pose proof (filter_region_wf B lr Hlr) as Hf.
+  intros start lr reverse N B H0 H1 HNB Hlr. pose proof (filter_region_wf B lr Hlr) as Hf.
   unfold transport_new. destruct reverse.
-  - destruct (Z.leb_spec 1 N); destruct (Z.leb_spec start (N - 1)); cbn [andb t_pos t_loop t_playing];
-      (split; [repeat split; cbn [t_pos t_loop t_playing]; try assumption; try lia; try discriminate|]);
-      (split; [reflexivity|]); split; intros; try lia; try (split; reflexivity); try discriminate.
+  - destruct (Z.leb_spec 1 N) as [Ha|Ha]; destruct (Z.leb_spec start (N - 1)) as [Hb|Hb];
+      cbn [andb t_pos t_loop t_playing].
+    + split; [split; [cbn; lia|]; split; [cbn; intros; lia | exact Hf]|].
+      split; [reflexivity|]. split; [intros; split; reflexivity | intros; lia].
+    + split; [split; [cbn; lia|]; split; [cbn; discriminate | exact Hf]|].
+      split; [reflexivity|]. split; [intros; lia | intros; split; reflexivity].
+    + split; [split; [cbn; lia|]; split; [cbn; discriminate | exact Hf]|].
+      split; [reflexivity|]. split; [intros; lia | intros; split; reflexivity].
+    + split; [split; [cbn; lia|]; split; [cbn; discriminate | exact Hf]|].
+      split; [reflexivity|]. split; [intros; lia | intros; split; reflexivity].
   - cbn [t_pos t_loop t_playing].
-    split; [repeat split; cbn [t_pos t_loop t_playing]; try assumption; try lia|].
+    split; [split; [cbn; lia|]; split; [cbn; intros; lia | exact Hf]|].
     split; [reflexivity|]. split; [intros; split; reflexivity | discriminate].
 Qed.
 
@@ -219,7 +226,7 @@ Lemma transport_safe_all :
                0 <= t_pos t' /\ (t_playing t' = true -> t_pos t' < B) /\ wf_loop B (t_loop t').
 Proof.
   intros fuel N B start lr reverse ops H0 H1 H2 H3 H4 H5 H6.
-  destruct (transport_new_safe start lr reverse N B H0 H1 H5) as (Hwf & _).
+  destruct (transport_new_safe start lr reverse N B H0 H1 H2 H5) as (Hwf & _).
   destruct (trun_safe fuel N B H2 H3 H4 ops _ Hwf H6) as (t' & Ht' & Hwf').
   exists t'. split; [exact Ht'|]. exact Hwf'.
 Qed.
